@@ -108,6 +108,8 @@ class Ops:
             return self.ite(v[1], self.field(v[2], name), self.field(v[3], name))
         if k == "bb" and name == "0":
             return v[1]
+        if k in ("and", "or", "xor", "not", "bbof") and name == "0":
+            return ("raw", v)
         if k == "bbconst" and name == "0":
             return I(v[1], "u64")
         if k == "downcast" and v[1][0] == "next" and v[2] == "Some" and name == "0":
@@ -161,6 +163,10 @@ class Ops:
                 pass
         if head[0] == "d":
             return new
+        if head == ("f", "0") and v[0] in ("bb", "bbconst", "bbof", "and", "or", "xor", "not"):
+            if new[0] == "int":
+                return ("bbconst", new[1])
+            return ("bb", new)
         if v[0] == "with" and v[2] == head:
             return ("with", v[1], head, new)
         return ("with", v, head, new)
